@@ -231,7 +231,7 @@ pub fn check(rep: &Report) {
     rep.assume("for PointerButton::None the DOWN bit is unconstrained (a move carries no button)");
     rep.assume("keyboard flags other than RELEASE and the EXTENDED bits are unconstrained");
     rep.list("button-matrix", matrix(), run);
-    rep.random("histories", rep.tier.n(20_000, 2_000_000), 260, decode, run);
+    rep.random("histories", rep.tier.n(60_000, 3_000_000), 260, decode, run);
     rep.require("histories", "interleaved-server-traffic", 1000);
     rep.require("histories", "unsendable", 1000);
 }
